@@ -593,6 +593,8 @@ static void vf_finish(void) { if (vf_scanner) { yylex_destroy(vf_scanner); vf_sc
 /* C++ class: input, output and errors go through the documented virtual members */
 class VfLexer : public yyFlexLexer {
 public:
+	/* user-provided, so that 'new VfLexer()' does not zero the storage first (value-initialisation of a class without one does) */
+	VfLexer() : yyFlexLexer() { }
 	virtual int LexerInput(char *b, int m) { return vf_read(b, (size_t)m); }
 	virtual void LexerOutput(const char *, int) { }
 	virtual void LexerError(const char *m) { vf_fatal(m); }
